@@ -68,6 +68,63 @@ class FuncInfo:
             visit(st)
         return names
 
+    def local_signatures(self):
+        """{local name: how it is first bound}, with the names of the function's own locals wildcarded - so that a renamed local
+        keeps its signature. Used by rename_map when locals were renamed AND others were added or removed in the same function."""
+        names = set(self.local_names())
+        sigs = {}
+
+        def norm(n):
+            if n is None:
+                return "None"
+
+            class W(ast.NodeTransformer):
+                def visit_Name(self, x):
+                    return ast.copy_location(ast.Name(id="_" if x.id in names else x.id, ctx=ast.Load()), x)
+
+            import copy
+
+            return ast.dump(W().visit(copy.deepcopy(n)), include_attributes=False)
+
+        def bind(t, how):
+            if isinstance(t, ast.Name):
+                sigs.setdefault(t.id, how)
+            elif isinstance(t, (ast.Tuple, ast.List)):
+                for i, e in enumerate(t.elts):
+                    bind(e, f"{how}[{i}/{len(t.elts)}]")
+            elif isinstance(t, ast.Starred):
+                bind(t.value, how + "*")
+
+        def visit(n):
+            if isinstance(n, (ast.FunctionDef, ast.AsyncFunctionDef, ast.ClassDef)):
+                sigs.setdefault(n.name, "def")
+                return
+            if isinstance(n, (ast.Lambda, ast.ListComp, ast.SetComp, ast.DictComp, ast.GeneratorExp)):
+                return
+            if isinstance(n, ast.Assign):
+                for t in n.targets:
+                    bind(t, "assign:" + norm(n.value))
+            elif isinstance(n, ast.AnnAssign):
+                bind(n.target, "assign:" + norm(n.value))
+            elif isinstance(n, ast.AugAssign):
+                bind(n.target, "aug:" + type(n.op).__name__)
+            elif isinstance(n, (ast.For, ast.AsyncFor)):
+                bind(n.target, "for:" + norm(n.iter))
+            elif isinstance(n, (ast.With, ast.AsyncWith)):
+                for it in n.items:
+                    if it.optional_vars is not None:
+                        bind(it.optional_vars, "with:" + norm(it.context_expr))
+            elif isinstance(n, ast.ExceptHandler) and n.name:
+                sigs.setdefault(n.name, "except:" + norm(n.type))
+            elif isinstance(n, ast.NamedExpr):
+                bind(n.target, "walrus:" + norm(n.value))
+            for ch in ast.iter_child_nodes(n):
+                visit(ch)
+
+        for st in self.node.body:
+            visit(st)
+        return sigs
+
     def __repr__(self):
         return f"<func {self.dotted}>"
 
@@ -103,6 +160,23 @@ def rename_map(fi):
     m = {}
     if base and len(base) == len(cur):
         m = {b: c for b, c in zip(base, cur) if b != c}
+    elif base:
+        # locals were added or removed as well: names that still exist keep their meaning; a reference name that is gone is
+        # matched to a NEW name with the same first-binding signature (value expression with local names wildcarded) when that
+        # match is unique, and the left-overs by order of first binding when equally many remain on both sides
+        bsig = (locals_baseline().get("#signatures") or {}).get(fi.dotted) or {}
+        csig = fi.local_signatures()
+        gone = [b for b in base if b not in cur]
+        new = [c for c in cur if c not in base]
+        for b in list(gone):
+            cands = [c for c in new if b in bsig and csig.get(c) == bsig[b]]
+            same_b = [x for x in gone if bsig.get(x) == bsig.get(b)]
+            if len(cands) == 1 and len(same_b) == 1:
+                m[b] = cands[0]
+                gone.remove(b)
+                new.remove(cands[0])
+        if gone and len(gone) == len(new):
+            m.update(dict(zip(gone, new)))
     fi._rename_map = m
     return m
 
